@@ -5,27 +5,31 @@ Import ListNotations.
 Require Import MRB.Model.Types MRB.Model.Seq MRB.Model.Splits.
 
 Theorem split_ok_is_do_split f s : split_ok f = true ->
-  (sp_borrow f = false -> pub s = mkTri 0 0 0) ->      (* a by-value split consumes a buffer that has never been split: indices still 0 *)
+  (sp_borrow f = false -> sp_heap_only f = true -> pub s = mkTri 0 0 0) ->      (* a heap buffer has no [&mut self] split: its by-value split consumes a buffer that has never been split, indices still 0 *)
   apply_split f s = do_split (sp_worker f) s.
 Proof.
   intros H Hfresh. unfold split_ok in H.
   repeat match type of H with _ && _ = true => apply andb_prop in H; destruct H as [H ?H] end.
   repeat match goal with E : Bool.eqb _ _ = true |- _ => apply Bool.eqb_prop in E end.
   unfold apply_split, do_split, sp_worker.
-  destruct f as [nm br [rp rw rc] [ap aw ac] [ip iw ic]]. cbn [sp_name sp_borrow sp_reset sp_alive sp_iters tP tW tC] in *. subst.
+  destruct f as [nm br [rp rw rc] [ap aw ac] [ip iw ic] ho]. cbn [sp_name sp_borrow sp_reset sp_alive sp_iters sp_heap_only tP tW tC] in *. subst.
   assert (Hpub : mkTri (if rp then 0 else tP (pub s)) (if rw then 0 else tW (pub s)) (if rc then 0 else tC (pub s)) = mkTri 0 0 0).
-  { destruct br; cbn [negb orb] in *.
-    - repeat match goal with E : _ && _ = true |- _ => apply andb_prop in E; destruct E as [E ?E] end. subst. reflexivity.
-    - rewrite (Hfresh eq_refl). destruct rp, rw, rc; reflexivity. }
+  { destruct br, ho; cbn [negb orb andb] in *;
+      try (repeat match goal with E : _ && _ = true |- _ => apply andb_prop in E; destruct E as [E ?E] end; subst; reflexivity).
+    rewrite (Hfresh eq_refl eq_refl). destruct rp, rw, rc; reflexivity. }
   rewrite Hpub. destruct iw; cbn [orb]; reflexivity.
 Qed.
 
 Theorem all_ok_are_do_split fs : forallb split_ok fs = true ->
-  forall f, In f fs -> forall s, (sp_borrow f = false -> pub s = mkTri 0 0 0) -> apply_split f s = do_split (sp_worker f) s.
+  forall f, In f fs -> forall s, (sp_borrow f = false -> sp_heap_only f = true -> pub s = mkTri 0 0 0) -> apply_split f s = do_split (sp_worker f) s.
 Proof. intros H f Hin s Hf. apply split_ok_is_do_split; auto. rewrite forallb_forall in H. auto. Qed.
 
 (** non-vacuity: the pre-fix async split of a borrowed stack buffer (alive bits only, no index reset) fails the condition, and on a
     buffer whose first session moved the indices it does NOT produce the state of [do_split] *)
 Example stale_resplit_rejected :
-  split_ok (mkSplit "pre-fix split_async(&mut self)" true (mkTri false false false) (mkTri true false true) (mkTri true false true)) = false.
+  split_ok (mkSplit "pre-fix split_async(&mut self)" true (mkTri false false false) (mkTri true false true) (mkTri true false true) false) = false.
+Proof. reflexivity. Qed.
+(** F11: the pre-fix by-value async split of the concurrent buffer, generic over the storage (so also offered by stack buffers) *)
+Example stale_by_value_resplit_rejected :
+  split_ok (mkSplit "pre-fix split_async(self), any storage" false (mkTri false false false) (mkTri true false true) (mkTri true false true) false) = false.
 Proof. reflexivity. Qed.
